@@ -158,3 +158,27 @@ def check_params_stable(ctx: Ctx, rule: str = "R-PARAMS"):
                     ctx.undecided(rule, f, st, f"parameter `{prm}` is rebound by `{txt[:100]}`: the rules of this property read `{prm}` as the caller's value; "
                                   f"confirm the new meaning and list the idiom (not a verdict on the repository)", key=f"{prm}")
     return n
+
+
+_OPS = {ast.Lt: "<", ast.LtE: "<=", ast.Gt: ">", ast.GtE: ">=", ast.Eq: "==", ast.NotEq: "!="}
+_MIRROR = {"<": ">", "<=": ">=", ">": "<", ">=": "<=", "==": "==", "!=": "!="}
+
+
+def is_cmp(test: ast.AST, a: str, op: str, b: str) -> bool:
+    """test is the single comparison `a op b`, in either operand order (a, b are normalised texts)"""
+    if not (isinstance(test, ast.Compare) and len(test.ops) == 1 and type(test.ops[0]) in _OPS):
+        return False
+    l, o, r = norm(test.left), _OPS[type(test.ops[0])], norm(test.comparators[0])
+    return (l, o, r) == (a, op, b) or (l, o, r) == (b, _MIRROR[op], a)
+
+
+def cmp_other(test: ast.AST, a: str, op: str):
+    """if test is `a op X` (either order) return norm(X) else None"""
+    if not (isinstance(test, ast.Compare) and len(test.ops) == 1 and type(test.ops[0]) in _OPS):
+        return None
+    l, o, r = norm(test.left), _OPS[type(test.ops[0])], norm(test.comparators[0])
+    if l == a and o == op:
+        return r
+    if r == a and o == _MIRROR[op]:
+        return l
+    return None
